@@ -1,7 +1,7 @@
 (* Proofs about the statement loops (C07 agreement of entry points, C12 recovery, C01 termination).
    Everything is parametric in the statement parser [ps]; the only facts assumed about it are stated as
    hypotheses and measured on the real parseStatement by the harness for every recorded table. *)
-From Coq Require Import List Arith Bool Lia.
+From Coq Require Import List Arith Bool Lia NArith.
 From GV Require Import Model.Loops.
 Import ListNotations.
 Local Open Scope nat_scope.
@@ -20,12 +20,12 @@ Section P.
   Notation skip_semi := (skip_semi ntok is_semi).
 
   (* ------------------------------------------------------------------ C07: the loop copies agree *)
-  Theorem parse_ctx_agrees : forall fuel pos acc, parse_ctx fuel pos acc = parse false fuel pos acc.
+  Theorem parse_ctx_agrees : forall strict fuel pos acc, parse_ctx strict fuel pos acc = parse strict fuel pos acc.
   Proof.
-    induction fuel as [|f IH]; intros pos acc; [reflexivity|].
+    intros strict. induction fuel as [|f IH]; intros pos acc; [reflexivity|].
     cbn [Loops.parse Loops.parse_ctx].
     destruct (in_range pos); [|reflexivity].
-    destruct (is_semi pos); [apply IH|].
+    destruct (is_semi pos); [destruct strict; [reflexivity | apply IH]|].
     destruct (ps pos) as [t p'|c p']; [apply IH | reflexivity].
   Qed.
 
@@ -42,10 +42,10 @@ Section P.
   Qed.
 
   (* ------------------------------------------------------------------ C12: recovery vs strict parsing *)
-  Lemma recover_errs_grow : forall fuel pos acc errs ts es,
-    recover fuel pos acc errs = ROk ts es -> exists more, es = errs ++ more.
+  Lemma recover_errs_grow : forall fuel pos acc errs u ts es,
+    recover fuel pos acc errs u = ROk ts es -> exists more, es = errs ++ more.
   Proof.
-    induction fuel as [|f IH]; intros pos acc errs ts es H; [discriminate|]. cbn [Loops.recover] in H.
+    induction fuel as [|f IH]; intros pos acc errs u ts es H; [discriminate|]. cbn [Loops.recover] in H.
     destruct (in_range pos).
     - destruct (is_semi pos); [eapply IH; exact H|].
       destruct (ps pos) as [t p'|c p'].
@@ -54,10 +54,10 @@ Section P.
     - inversion H; subst. exists []. now rewrite app_nil_r.
   Qed.
 
-  Lemma ok_then_same : forall fuel pos acc ts errs,
-    parse false fuel pos acc = POk ts -> recover fuel pos acc errs = ROk ts errs.
+  Lemma ok_then_same : forall fuel pos acc ts errs u,
+    parse false fuel pos acc = POk ts -> recover fuel pos acc errs u = ROk ts errs.
   Proof.
-    induction fuel as [|f IH]; intros pos acc ts errs Hp; [discriminate|].
+    induction fuel as [|f IH]; intros pos acc ts errs u Hp; [discriminate|].
     cbn [Loops.parse Loops.recover] in Hp |- *.
     destruct (in_range pos).
     - destruct (is_semi pos); [eauto|].
@@ -65,11 +65,27 @@ Section P.
     - destruct acc; [discriminate|]. now inversion Hp.
   Qed.
 
-  Lemma fail_then_err : forall fuel pos acc c errs ts es,
+  (* the first error recovery reports carries the code strict parsing fails with *)
+  Lemma fail_then_first_err : forall fuel pos acc c errs u ts es,
     parse false fuel pos acc = PErr c -> acc <> [] \/ c <> E_EMPTY ->
-    recover fuel pos acc errs = ROk ts es -> es <> [].
+    recover fuel pos acc errs u = ROk ts es -> exists p more, es = errs ++ (p, c) :: more.
   Proof.
-    induction fuel as [|f IH]; intros pos acc c errs ts es Hp Hc Hr; [discriminate|].
+    induction fuel as [|f IH]; intros pos acc c errs u ts es Hp Hc Hr; [discriminate|].
+    cbn [Loops.parse Loops.recover] in Hp, Hr.
+    destruct (in_range pos).
+    - destruct (is_semi pos); [eauto|].
+      destruct (ps pos) as [t p'|c' p'].
+      + eapply IH; eauto. left. destruct acc; discriminate.
+      + inversion Hp; subst c'. apply recover_errs_grow in Hr. destruct Hr as [more ->].
+        exists pos, more. now rewrite <- app_assoc.
+    - destruct acc; [inversion Hp; subst; destruct Hc; congruence | discriminate].
+  Qed.
+
+  Lemma fail_then_err : forall fuel pos acc c errs u ts es,
+    parse false fuel pos acc = PErr c -> acc <> [] \/ c <> E_EMPTY ->
+    recover fuel pos acc errs u = ROk ts es -> es <> [].
+  Proof.
+    induction fuel as [|f IH]; intros pos acc c errs u ts es Hp Hc Hr; [discriminate|].
     cbn [Loops.parse Loops.recover] in Hp, Hr.
     destruct (in_range pos).
     - destruct (is_semi pos); [eauto|].
@@ -82,20 +98,20 @@ Section P.
   (* recovery reports at least one error exactly when strict parsing fails (the empty-input code is excluded by
      the property's "at least one token other than semicolons", discharged by [nonempty_not_E_EMPTY] below) *)
   Theorem recovery_iff_strict : forall fuel ts es,
-    recover fuel 0 [] [] = ROk ts es ->
+    recover fuel 0 [] [] None = ROk ts es ->
     parse false fuel 0 [] <> PFuel ->
     (forall c, parse false fuel 0 [] = PErr c -> c <> E_EMPTY) ->
     (es <> [] <-> exists c, parse false fuel 0 [] = PErr c).
   Proof.
     intros fuel ts es Hr Hf Hne. destruct (parse false fuel 0 []) as [ts'|c|] eqn:Hp; [| |congruence].
-    - rewrite (ok_then_same _ _ _ _ [] Hp) in Hr. inversion Hr; subst.
+    - rewrite (ok_then_same _ _ _ _ [] None Hp) in Hr. inversion Hr; subst.
       split; [congruence | intros [c Hc]; discriminate].
     - split; [eauto|]. intros _. eapply fail_then_err; eauto.
   Qed.
 
   (* when recovery reports no error it returns exactly the trees of strict parsing *)
   Theorem recovery_trees_when_ok : forall fuel ts,
-    parse false fuel 0 [] = POk ts -> recover fuel 0 [] [] = ROk ts [].
+    parse false fuel 0 [] = POk ts -> recover fuel 0 [] [] None = ROk ts [].
   Proof. intros. now apply ok_then_same. Qed.
 
   (* ------------------------------------------------------------------ C01: termination (fuel sufficiency) *)
@@ -126,9 +142,9 @@ Section P.
     specialize (IH (S p)). lia.
   Qed.
 
-  Theorem recover_fuel : forall fuel pos acc errs, ntok - pos < fuel -> recover fuel pos acc errs <> RFuel.
+  Theorem recover_fuel : forall fuel pos acc errs u, ntok - pos < fuel -> recover fuel pos acc errs u <> RFuel.
   Proof.
-    induction fuel as [|f IH]; intros pos acc errs Hf; [lia|].
+    induction fuel as [|f IH]; intros pos acc errs u Hf; [lia|].
     cbn [Loops.recover]. destruct (in_range pos) eqn:Hr; [|discriminate].
     apply in_range_lt in Hr.
     destruct (is_semi pos); [apply IH; lia|].
@@ -160,7 +176,7 @@ Section P.
   (* segments S1 ; S2 ; ... ; Sn as the loops see them, with the locality assumptions of the property:
      a well-formed segment parses to exactly its terminator; the parse of a malformed one fails without passing
      its terminator, and no statement-starting keyword follows its failure point *)
-  Inductive seg := Good (t : tree) | Bad (start code : nat).
+  Inductive seg := Good (t : tree) | Bad (start : nat) (code : N).
 
   Inductive segs : nat -> list seg -> Prop :=
   | segs_nil pos : in_range pos = false -> segs pos []
@@ -175,47 +191,121 @@ Section P.
       (forall k, (if p' =? pos then S pos else p') <= k < e ->
                  in_range k = true /\ is_semi k = false /\ starts_stmt k = false) ->
       (term_semi e \/ term_end e) ->
-      segs (if in_range e then S e else e) l -> segs pos (Bad pos c :: l).
+      segs (if in_range e then S e else e) l -> segs pos (Bad pos c :: l)
+  (* a malformed segment whose beginning is a complete statement: the statement parser succeeds up to [e1], inside
+     the segment, where a token that cannot start a statement follows without a semicolon *)
+  | segs_bad_prefix pos t e1 c p' e l :
+      in_range pos = true -> is_semi pos = false ->
+      ps pos = SOk t e1 ->
+      in_range e1 = true -> is_semi e1 = false -> starts_stmt e1 = false ->
+      ps e1 = SErr c p' -> p' <= e -> e1 < e ->
+      (forall k, (if p' =? e1 then S e1 else p') <= k < e ->
+                 in_range k = true /\ is_semi k = false /\ starts_stmt k = false) ->
+      (term_semi e \/ term_end e) ->
+      segs (if in_range e then S e else e) l -> segs pos (Bad e1 c :: l).
 
   Fixpoint goods (l : list seg) : list tree :=
     match l with [] => [] | Good t :: r => t :: goods r | Bad _ _ :: r => goods r end.
-  Fixpoint bads (l : list seg) : list (nat * nat) :=
+  Fixpoint bads (l : list seg) : list (nat * N) :=
     match l with [] => [] | Good _ :: r => bads r | Bad s c :: r => (s, c) :: bads r end.
 
+  (* the unterminated-statement marker never points at a position where a statement of a later segment starts *)
+  Definition unterm_ok (u : option nat) (pos : nat) : Prop :=
+    forall q, u = Some q -> q < pos \/ (q = pos /\ in_range pos = false).
+
+  Lemma sync_after_failure : forall p1 e, 0 < ntok -> 0 < p1 -> p1 <= e ->
+    (forall k, p1 <= k < e -> in_range k = true /\ is_semi k = false /\ starts_stmt k = false) ->
+    (term_semi e \/ term_end e) ->
+    sync ntok p1 = if in_range e then S e else e.
+  Proof.
+    intros p1 e Hn Hp0 Hp1 Hmid Ht.
+    assert (He : e - p1 < ntok).
+    { destruct (Nat.eq_dec p1 e) as [->|Hne]; [lia|].
+      destruct (Hmid (e - 1) ltac:(lia)) as [Hre _]. apply in_range_lt in Hre. lia. }
+    destruct (sync_reach ntok p1 e Hp1 He Hmid) as [Hsa Hsb].
+    destruct Ht as [Hts|Hte].
+    - rewrite (Hsa Hts). destruct Hts as [Hre _]. now rewrite Hre.
+    - rewrite (Hsb Hte). unfold term_end in Hte. now rewrite Hte.
+  Qed.
+
+  Lemma unterm_ok_after : forall u e, unterm_ok u e -> (term_semi e \/ term_end e) ->
+    unterm_ok u (if in_range e then S e else e).
+  Proof.
+    intros u e Hu Ht q Hq. destruct (Hu q Hq) as [Hlt|[-> Hr]].
+    - destruct (in_range e); cbn iota; left; lia.
+    - rewrite Hr. right. split; [reflexivity | assumption].
+  Qed.
+
+  Lemma unterm_ok_weaken : forall u p q, unterm_ok u p -> p < q -> unterm_ok u q.
+  Proof. intros u p q Hu Hlt r Hr. destruct (Hu r Hr) as [H|[-> _]]; left; lia. Qed.
+
   (* recovery returns precisely the trees of the well-formed segments, in order, and one error per malformed
-     segment, located at that segment's first token *)
-  Theorem recovery_segments : forall l pos, segs pos l ->
-    forall fuel acc errs, ntok - pos < fuel ->
-    recover fuel pos acc errs = ROk (acc ++ goods l) (errs ++ bads l).
+     segment, located at a token of that segment *)
+  Theorem recovery_segments_gen : forall l pos, segs pos l ->
+    forall fuel acc errs u, unterm_ok u pos -> ntok - pos + length l < fuel ->
+    recover fuel pos acc errs u = ROk (acc ++ goods l) (errs ++ bads l).
   Proof.
     intros l pos Hs. induction Hs as [pos Hr | pos l Hr Hsm Hs IH | pos t e l Hr Hsm Hps Ht Hs IH
-                                     | pos c p' e l Hr Hsm Hps Hpe Hlt Hmid Ht Hs IH];
-      intros fuel acc errs Hf.
+                                     | pos c p' e l Hr Hsm Hps Hpe Hlt Hmid Ht Hs IH
+                                     | pos t e1 c p' e l Hr Hsm Hps Hr1 Hsm1 Hk1 Hps1 Hpe Hlt Hmid Ht Hs IH];
+      intros fuel acc errs u Hu Hf.
     - destruct fuel as [|f]; [lia|]. cbn [Loops.recover]. rewrite Hr. cbn. now rewrite !app_nil_r.
     - destruct fuel as [|f]; [lia|]. cbn [Loops.recover]. rewrite Hr, Hsm.
-      apply in_range_lt in Hr. apply IH; lia.
-    - destruct fuel as [|f]; [lia|]. cbn [Loops.recover]. rewrite Hr, Hsm, Hps.
-      cbn [goods bads]. rewrite (IH f (acc ++ [t]) errs).
+      apply in_range_lt in Hr. apply IH; [eapply unterm_ok_weaken; eauto | lia].
+    - destruct fuel as [|f]; [cbn in Hf; lia|]. cbn [Loops.recover]. rewrite Hr, Hsm, Hps.
+      cbn [goods bads].
+      pose proof (ps_progress _ _ _ Hps) as Hpr. pose proof (skip_semi_ge e) as Hge.
+      rewrite (IH f (acc ++ [t]) errs).
       + now rewrite <- app_assoc.
-      + apply in_range_lt in Hr. apply ps_progress in Hps. pose proof (skip_semi_ge e). lia.
-    - destruct fuel as [|f]; [lia|]. cbn [Loops.recover]. rewrite Hr, Hsm, Hps.
+      + (* the marker after a well-formed segment *)
+        unfold Loops.skip_semi. destruct ((e <? ntok) && is_semi e) eqn:Hse.
+        * eapply unterm_ok_weaken; [exact Hu | lia].
+        * intros q Hq. inversion Hq; subst q. right. split; [reflexivity|].
+          destruct Ht as [[Hre Hse']|Hte]; [|exact Hte].
+          apply in_range_lt in Hre. apply Nat.ltb_lt in Hre. rewrite Hre, Hse' in Hse. discriminate.
+      + apply in_range_lt in Hr. cbn [length] in Hf. lia.
+    - destruct fuel as [|f]; [cbn in Hf; lia|]. cbn [Loops.recover]. rewrite Hr, Hsm, Hps.
+      assert (Hacc : match u with
+                     | Some u0 => if (u0 =? pos) && negb (starts_stmt pos) then removelast acc else acc
+                     | None => acc end = acc).
+      { destruct u as [q|]; [|reflexivity]. destruct (Hu q eq_refl) as [Hq|[-> Hq]].
+        - destruct (Nat.eqb_spec q pos); [lia | reflexivity].
+        - congruence. }
+      rewrite Hacc.
       set (p1 := if p' =? pos then S pos else p') in *.
-      assert (Hp1 : p1 <= e).
-      { subst p1. destruct (Nat.eqb_spec p' pos); lia. }
-      assert (Hp1' : pos < p1).
-      { subst p1. apply ps_mono in Hps. destruct (Nat.eqb_spec p' pos); lia. }
-      assert (He : e - p1 < ntok).
-      { apply in_range_lt in Hr. destruct (Nat.eq_dec p1 e) as [->|Hne]; [lia|].
-        destruct (Hmid (e - 1) ltac:(lia)) as [Hre _]. apply in_range_lt in Hre. lia. }
-      destruct (sync_reach ntok p1 e Hp1 He Hmid) as [Hsa Hsb].
-      assert (Hsync : sync ntok p1 = if in_range e then S e else e).
-      { destruct Ht as [Hts|Hte].
-        - rewrite (Hsa Hts). destruct Hts as [Hre _]. now rewrite Hre.
-        - rewrite (Hsb Hte). unfold term_end in Hte. now rewrite Hte. }
-      rewrite Hsync. cbn [goods bads].
-      rewrite (IH f acc (errs ++ [(pos, c)])).
+      pose proof (ps_mono _ _ _ Hps) as Hm.
+      assert (Hp1 : p1 <= e) by (subst p1; destruct (Nat.eqb_spec p' pos); lia).
+      assert (Hp1' : pos < p1) by (subst p1; destruct (Nat.eqb_spec p' pos); lia).
+      pose proof (in_range_lt _ Hr) as Hlt'.
+      rewrite (sync_after_failure p1 e ltac:(lia) ltac:(lia) Hp1 Hmid Ht). cbn [goods bads].
+      rewrite (IH f acc (errs ++ [(pos, c)]) u).
       + now rewrite <- app_assoc.
-      + apply in_range_lt in Hr. destruct (in_range e); lia.
+      + apply unterm_ok_after; [|exact Ht]. eapply unterm_ok_weaken; [exact Hu | lia].
+      + cbn [length] in Hf. destruct (in_range e); lia.
+    - (* a complete statement followed, inside the same segment, by tokens that cannot start a statement *)
+      destruct fuel as [|[|f]]; [cbn in Hf; lia | cbn in Hf; pose proof (in_range_lt _ Hr); pose proof (in_range_lt _ Hr1); pose proof (ps_progress _ _ _ Hps); lia |].
+      cbn [Loops.recover]. rewrite Hr, Hsm, Hps.
+      assert (Hss : skip_semi e1 = e1) by (unfold Loops.skip_semi; now rewrite Hsm1, andb_false_r).
+      rewrite Hss. rewrite Hsm1, andb_false_r.
+      rewrite Hr1, Hps1. rewrite Nat.eqb_refl, Hk1. cbn [negb andb].
+      rewrite removelast_last.
+      set (p1 := if p' =? e1 then S e1 else p') in *.
+      pose proof (ps_mono _ _ _ Hps1) as Hm.
+      assert (Hp1 : p1 <= e) by (subst p1; destruct (Nat.eqb_spec p' e1); lia).
+      assert (Hp1' : e1 < p1) by (subst p1; destruct (Nat.eqb_spec p' e1); lia).
+      pose proof (in_range_lt _ Hr1) as Hlt'.
+      rewrite (sync_after_failure p1 e ltac:(lia) ltac:(lia) Hp1 Hmid Ht). cbn [goods bads].
+      rewrite (IH f acc (errs ++ [(e1, c)]) (Some e1)).
+      + now rewrite <- app_assoc.
+      + intros q Hq. inversion Hq; subst q. left. destruct (in_range e); lia.
+      + pose proof (ps_progress _ _ _ Hps). pose proof (in_range_lt _ Hr). cbn [length] in Hf. destruct (in_range e); lia.
+  Qed.
+
+  Theorem recovery_segments : forall l, segs 0 l ->
+    forall fuel, ntok + length l < fuel ->
+    recover fuel 0 [] [] None = ROk (goods l) (bads l).
+  Proof.
+    intros l Hs fuel Hf. apply (recovery_segments_gen l 0 Hs fuel [] [] None); [intros q Hq; discriminate | lia].
   Qed.
 End P.
 
@@ -262,8 +352,8 @@ End B.
 (* tokens:  K . S K . . S E   (two statements, the second malformed at its third token) *)
 Example loops_example :
   let kinds := [3; 0; 2; 3; 0; 0; 2; 1] in
-  let tbl := [SOk 100 2; SErr 1 1; SErr 1 2; SErr 7 5; SErr 1 4; SErr 1 5; SErr 1 6; SErr 1 7] in
-  run_parse false kinds tbl = PErr 7 /\
-  run_parse_ctx kinds tbl = PErr 7 /\
-  run_recover kinds tbl = ROk [100] [(3, 7)].
+  let tbl := [SOk 100 2; SErr 1%N 1; SErr 1%N 2; SErr 7%N 5; SErr 1%N 4; SErr 1%N 5; SErr 1%N 6; SErr 1%N 7] in
+  run_parse false kinds tbl = PErr 7%N /\
+  run_parse_ctx false kinds tbl = PErr 7%N /\
+  run_recover kinds tbl = ROk [100] [(3, 7%N)].
 Proof. vm_compute. repeat split. Qed.
